@@ -47,6 +47,10 @@ type session struct {
 	Action   string // none, reconnect, remove, remove-in-backoff
 	ActionAt int    // message index at which the action is taken
 	Refusals int    // dial refusals scripted before this session
+	// DialCancel: the next dial for this session is slow (honouring its context)
+	// and the driver issues Reconnect while the attempt is pending, so the
+	// attempt — and every target that joined it — ends with context.Canceled.
+	DialCancel bool
 }
 
 type event struct {
@@ -73,6 +77,8 @@ type targetState struct {
 	lastEnd     time.Time
 	haveEnd     bool
 	refuse      int32 // pending dial refusals
+	slowDial    int32 // pending slow dials
+	attempts    int   // connection attempts seen so far
 	cond        *sync.Cond
 	viol        []string
 	violSig     []string
@@ -124,6 +130,7 @@ func (e *env) record(ts *targetState, kind string, payload int64) {
 	case "add":
 		ts.managed, ts.removed, ts.haveEnd = true, false, false
 	case "attempt":
+		ts.attempts++
 		if ts.haveEnd {
 			if gap := ev.At.Sub(ts.lastEnd); gap < baseDelay/2 {
 				bad("retry-without-backoff", fmt.Sprintf("next connection attempt started %v after the previous attempt ended (minimum backoff %v)", gap, baseDelay/2))
@@ -304,6 +311,18 @@ func (s *server) Subscribe(stream gpb.GNMI_SubscribeServer) error {
 type cmWrap struct {
 	e    *env
 	real *connection.Manager
+	mu   sync.Mutex
+	slow map[string]int // address -> number of coming dials that are slow
+}
+
+func (c *cmWrap) takeSlow(addr string) bool {
+	c.mu.Lock()
+	defer c.mu.Unlock()
+	if c.slow[addr] > 0 {
+		c.slow[addr]--
+		return true
+	}
+	return false
 }
 
 func (c *cmWrap) Connection(ctx context.Context, addr, dialer string) (*grpc.ClientConn, func(), error) {
@@ -319,6 +338,12 @@ func (c *cmWrap) Connection(ctx context.Context, addr, dialer string) (*grpc.Cli
 			atomic.AddInt32(&ts.refuse, -1)
 			c.e.record(ts, "refused", 0)
 			return nil, func() {}, errors.New("scripted dial refusal")
+		}
+		if atomic.LoadInt32(&ts.slowDial) > 0 {
+			atomic.AddInt32(&ts.slowDial, -1)
+			c.mu.Lock()
+			c.slow[addr]++
+			c.mu.Unlock()
 		}
 	}
 	conn, done, err := c.real.Connection(ctx, addr, dialer)
@@ -446,6 +471,7 @@ func runTrial(r *vlib.Run, mode string, trial int, rng *rand.Rand) {
 			if rng.Intn(5) == 0 {
 				s.Refusals = 1 + rng.Intn(2)
 			}
+			s.DialCancel = rng.Intn(6) == 0
 			switch s.Outcome {
 			case "block":
 				if effective[i] > 0 && rng.Intn(2) == 0 {
@@ -492,6 +518,7 @@ func runTrial(r *vlib.Run, mode string, trial int, rng *rand.Rand) {
 			dialFailLeft[a] = []int{0, 0, 1, 2}[rng.Intn(4)]
 		}
 	}
+	cm := &cmWrap{e: e, slow: map[string]int{}}
 	dial := func(ctx context.Context, target string, opts ...grpc.DialOption) (*grpc.ClientConn, error) {
 		dialMu.Lock()
 		fail := dialFailLeft[target] > 0
@@ -503,6 +530,15 @@ func runTrial(r *vlib.Run, mode string, trial int, rng *rand.Rand) {
 			r.Count("dial_level_failures", 1)
 			time.Sleep(dialDelay)
 			return nil, errors.New("scripted dial failure")
+		}
+		if cm.takeSlow(target) {
+			r.Count("slow_dials", 1)
+			select {
+			case <-ctx.Done():
+				r.Count("slow_dials_cancelled_while_pending", 1)
+				return nil, ctx.Err()
+			case <-time.After(10 * dialDelay):
+			}
 		}
 		opts = append(opts,
 			grpc.WithContextDialer(func(ctx context.Context, _ string) (net.Conn, error) { return e.lis.DialContext(ctx) }),
@@ -522,6 +558,7 @@ func runTrial(r *vlib.Run, mode string, trial int, rng *rand.Rand) {
 	if err != nil {
 		panic(err)
 	}
+	cm.real = real
 	// Callbacks are user code and may be slow: in a third of the trials Reset
 	// (and rarely Update) take a while, which stretches the time Remove holds
 	// the manager's lock and opens windows for the other targets' timers.
@@ -562,7 +599,7 @@ func runTrial(r *vlib.Run, mode string, trial int, rng *rand.Rand) {
 		},
 		ConnectError:      func(name string, err error) { cb("connecterror")(name) },
 		MonitorError:      func(name string, err error) { cb("monitorerror")(name) },
-		ConnectionManager: &cmWrap{e: e, real: real},
+		ConnectionManager: cm,
 		ReceiveTimeout:    recvTimeout,
 		Timeout:           5 * time.Second,
 	})
@@ -703,10 +740,31 @@ func runTrial(r *vlib.Run, mode string, trial int, rng *rand.Rand) {
 		go func() {
 			defer wg.Done()
 			atomic.StoreInt32(&ts.refuse, int32(ts.script[0].Refusals))
+			slow := func(s session) int32 {
+				if s.DialCancel {
+					return 1
+				}
+				return 0
+			}
+			atomic.StoreInt32(&ts.slowDial, slow(ts.script[0]))
+			attemptsSeen := 0
 			if !add() {
 				return
 			}
 			for j, s := range ts.script {
+				if s.DialCancel {
+					// Reconnect while the (slow) connection attempt for this session is pending.
+					waitFor(ts, grace, func() bool { return ts.attempts > attemptsSeen+s.Refusals || ts.opened > j })
+					ts.mu.Lock()
+					pending := ts.opened <= j
+					ts.mu.Unlock()
+					if pending {
+						if _, ok := callBounded("Reconnect", func() error { act(); return m.Reconnect(name) }); !ok {
+							return
+						}
+						r.Count("reconnects_during_connection_attempt", 1)
+					}
+				}
 				// Bounded progress: the j-th session must be opened while the target is managed.
 				if !waitFor(ts, grace, func() bool { return ts.opened > j }) {
 					stuck <- fmt.Sprintf("%s: session %d was never opened within %v although the target is managed (retry loop dead, or a silent stream not ended by the target's effective receive timeout %v?)", name, j, grace, effective[i])
@@ -714,7 +772,11 @@ func runTrial(r *vlib.Run, mode string, trial int, rng *rand.Rand) {
 				}
 				if j+1 < len(ts.script) {
 					atomic.StoreInt32(&ts.refuse, int32(ts.script[j+1].Refusals))
+					atomic.StoreInt32(&ts.slowDial, slow(ts.script[j+1]))
 				}
+				ts.mu.Lock()
+				attemptsSeen = ts.attempts
+				ts.mu.Unlock()
 				// Duplicate Add must be refused and cause nothing.
 				if j == 1 {
 					if err := m.Add(name, tgt, req); err == nil {
